@@ -176,7 +176,7 @@ package openapi3
 //@ spec resolvedProps(s *Schema) bool opaque := forall k string :: s.Properties[k] != nil ==> s.Properties[k].Value != nil
 //@ func (*Schema).visitJSONObject
 //@   requires schema != nil && settings != nil && wfDeep(schema)
-//@   assuming @C01 !settings.asreq && !settings.asrep
+//@   assuming !settings.asreq && !settings.asrep
 //@   assuming settings.defaultsSet == nil
 //@   assuming resolvedProps(schema)
 //@   assuming schema.AdditionalProperties.Schema != nil ==> schema.AdditionalProperties.Schema.Value != nil
@@ -186,7 +186,9 @@ package openapi3
 //@   loop 1 invariant (len(me) == 0) <==> (forall k string :: keysPrefix(properties, #i)[k] && forbiddenProp(schema, settings, k) ==> value[k] == nil)
 //@   loop 2 invariant seenset() == keys(keys) && fresh(keys)
 //@   loop 3 invariant !settings.multiError ==> ((len(me) == 0) <==> modeOK(schema, settings, value))
-//@   loop 3 invariant (len(me) == 0) <==> (modeOK(schema, settings, value) && propsSizeOK(schema, len(value)) && (forall k string :: keysPrefix(keys, #i)[k] ==> propOK(schema, k, value[k])))
+//@   loop 3 invariant (len(me) == 0) ==> (modeOK(schema, settings, value) && propsSizeOK(schema, len(value)))
+//@   loop 3 invariant (len(me) == 0) ==> (forall k string :: keysPrefix(keys, #i)[k] ==> propOK(schema, k, value[k]))
+//@   loop 3 invariant (modeOK(schema, settings, value) && propsSizeOK(schema, len(value)) && (forall k string :: keysPrefix(keys, #i)[k] ==> propOK(schema, k, value[k]))) ==> len(me) == 0
 //@   loop 4 invariant !settings.multiError ==> ((len(me) == 0) <==> modeOK(schema, settings, value))
 //@   loop 4 invariant (len(me) == 0) ==> (modeOK(schema, settings, value) && propsSizeOK(schema, len(value)) && (forall k string :: has(value, k) ==> propOK(schema, k, value[k])))
 //@   loop 4 invariant (len(me) == 0) ==> (forall j int :: 0 <= j && j < #i ==> has(value, schema.Required[j]) || exemptProp(schema, settings, schema.Required[j]))
